@@ -33,6 +33,12 @@ fn main() {
             kv.insert(a[..p].to_string(), a[p + 1..].to_string());
         }
     }
+    if driver == "c14child" {
+        drivers::c14::child(&kv);
+    }
+    if driver == "c18child" {
+        drivers::c18::child(&kv);
+    }
     let get = |k: &str, d: &str| kv.get(k).cloned().unwrap_or_else(|| d.to_string());
     let tier = if get("tier", "quick") == "thorough" { Tier::Thorough } else { Tier::Quick };
     let mut ctx = Ctx {
